@@ -84,7 +84,8 @@ def install_demo(sid, tree):
         for sumsrc in ("util/resolve/go.sum",):
             if not os.path.exists(os.path.join(work, "go.sum")):
                 shutil.copy(os.path.join(tree, sumsrc), os.path.join(work, "go.sum"))
-    return work, ("sh ./run.sh" if os.path.exists(os.path.join(work, "run.sh")) else "go run .")
+    # standalone demonstrations that read source files of the tree take its location from SEED_TREE
+    return work, ("SEED_TREE=%s " % tree) + ("sh ./run.sh" if os.path.exists(os.path.join(work, "run.sh")) else "go run .")
 
 
 def main():
